@@ -227,12 +227,16 @@ inductive StoreOp where
   | commit (t : TxIn)
   | lock (keys : List Key)
   | markReverted (id : Nat) (at_ : Int)
+  /-- `saveAccountMetadata`: `UpsertAccounts` with one row without dates (metadata written on
+      an account; creates it — first usage = insertion date = the write's date — when absent) -/
+  | saveAccountMeta (address : String) (at_ : Int) (md : Metadata)
   deriving Repr, Inhabited
 
 def applyOp (st : Store) : StoreOp → Except Err Store
   | .commit t => applyTx st t
   | .lock keys => .ok (lockBalances st keys)
   | .markReverted id a => .ok (markReverted st id a)
+  | .saveAccountMeta a at_ md => .ok { st with accounts := upsertAccount st.accounts a none at_ md }
 
 def runOpsFrom : Store → List StoreOp → Except Err Store
   | st, [] => .ok st
